@@ -49,6 +49,7 @@ void h_buddy_malloc(void)
 	verif_g_val_before = B.longest[verif_g];
 	verif_root_before = B.longest[0];
 	void *p = buddy_malloc(&B, e);
+#if C12_SLICE == 0
 	if(p != NULL) {
 		uint32_t off = (uint32_t)((char *)p - (char *)B.base_mem);
 		VASSERT(off + (1U << e) <= B_TOTAL && (off & ((1U << e) - 1U)) == 0, "C12.malloc block inside the arena and aligned to its size");
@@ -61,6 +62,7 @@ void h_buddy_malloc(void)
 		VASSERT(B.longest[verif_g] == verif_g_val_before, "C12.malloc failure changes nothing");
 	}
 	VASSERT(b_wf(&B), "C12.malloc tree well formed afterwards");
+#endif
 	VCANARY("h_buddy_malloc reachable");
 	VCOVER(p == NULL, "h_buddy_malloc covers failure");
 	VCOVER(p != NULL && verif_g_live_before && e > B_BLOCK_EXP, "h_buddy_malloc covers success next to a live block");
@@ -76,11 +78,15 @@ void h_buddy_free(void)
 	verif_g_live_before = b_live(B.longest, verif_g);
 	void *p = B.base_mem + b_off(verif_n);
 	uint_fast32_t sz = buddy_free(&B, p);
+#if C12_SLICE == 0
 	VASSERT(sz == (uint_fast32_t)1U << b_lev(verif_n), "C12.free returns the block size");
 	VASSERT(!b_live(B.longest, verif_n), "C12.free block no longer live");
 	VASSERT(verif_g == verif_n || b_live(B.longest, verif_g) == verif_g_live_before, "C12.free other blocks unaffected");
 	VASSERT(B.longest[0] >= b_lev(verif_n), "C12.free space reusable");
 	VASSERT(b_wf(&B), "C12.free tree well formed afterwards");
+#else
+	(void)sz;
+#endif
 	VCANARY("h_buddy_free reachable");
 	VCOVER(b_lev(verif_n) > B_BLOCK_EXP && verif_g != verif_n && verif_g_live_before, "h_buddy_free covers inner-node block with another live block");
 }
